@@ -47,7 +47,7 @@ def configs(tier, seed):
             counts_list = [(1, 1, 1), (2, 2, 1), (2, 0, 1)] + ([(2, 2, 2)] if edges == [(0, 1), (1, 2)] else [])
         for counts in counts_list:
             for mip in ([0, 2] if tier == "quick" else [0, 2, 3, 0.5, 1.0]):
-                out.append(dict(kind="group", edges=edges, n_nodes=n, counts=list(counts), min_instance_peaks=mip, nan_scores=(counts in ((1, 1), (2, 2), (1, 1, 1), (2, 2, 1)))))
+                out.append(dict(kind="group", edges=edges, n_nodes=n, counts=list(counts), min_instance_peaks=mip, nan_scores=(counts in ((1, 1), (2, 2), (2, 1), (1, 1, 1), (2, 2, 1)))))
     out.append(dict(kind="score", coincide=True))
     out.append(dict(kind="score", coincide=False))
     return out
@@ -148,6 +148,18 @@ def _run_group(cfg):
         cand_score = {}
         for i, (e, a, b) in enumerate(cand):
             cand_score[(e, a, b)] = XF(z3.Real(f"s{i}"), z3.Bool(f"s{i}#nan") if cfg["nan_scores"] else False)
+        # O2b: every returned match carries the line score of ITS OWN (source peak, destination peak) candidate
+        goals = []
+        for (e, s_loc, d_loc, sc) in matches:
+            sn, dn = edges[e]
+            if s_loc >= len(node_peaks[sn]) or d_loc >= len(node_peaks[dn]):
+                goals.append(False)
+                continue
+            ref = cand_score[(e, node_peaks[sn][s_loc], node_peaks[dn][d_loc])]
+            goals.append(xf.xeq_term(XF.of(sc), ref))
+        if goals:
+            discharge(ex, rep, "O2b-match-carries-the-score-of-its-own-candidate-pair", And(*goals),
+                      on_sat=lambda m, env, cand=cand: ("O2b-score-of-other-pair", "a match between two peaks carries the line score of a different candidate pair (peak positions and scores are misaligned)", extract(env, cand)))
         for e, (sn, dn) in enumerate(edges):
             chosen = [(node_peaks[sn][s_loc], node_peaks[dn][d_loc]) for (ee, s_loc, d_loc, sc) in matches if ee == e]
             S, D = node_peaks[sn], node_peaks[dn]
@@ -329,6 +341,12 @@ def replay(cfg, inputs, obligation):
     sc = scores.numpy().astype(np.float64)
     cand = {(int(e), int(a), int(b)): sc[i] for i, (e, (a, b)) in enumerate(zip(edge_inds.tolist(), edge_peak_inds.tolist()))}
     matches = [(int(e), node_peaks[edges[int(e)][0]][int(s)], node_peaks[edges[int(e)][1]][int(d)], float(l)) for e, s, d, l in zip(me.tolist(), ms.tolist(), md.tolist(), ml.tolist())]
+    if obligation.startswith("O2b"):
+        for (e, a, b, l) in matches:
+            c = cand[(e, a, b)]
+            if not ((np.isnan(c) and np.isnan(l)) or abs(c - l) < 1e-5):
+                return True, f"match of edge {e} between peaks {a}->{b} carries line score {l}, but that candidate's score is {c} (scores {inputs['scores']})"
+        return False, "every match carries its own candidate's score"
     if obligation.startswith("O2"):
         for e, (sn, dn) in enumerate(edges):
             S, D = node_peaks[sn], node_peaks[dn]
